@@ -368,23 +368,38 @@ static std::string handle(const std::vector<std::string>& f0)
         set_env(d, ".");
         return r;
     }
-    if (op == "H")
+    if (op == "H" || op == "HM")
     {
+        // HM: between two parses the parser object is moved (alternately move-constructed and move-assigned), the
+        // way a parser kept in a container or handed around is
         Decl d = parse_decl(f.at(1));
-        no::parser p("prog");
+        auto cur = std::make_unique<no::parser>("prog");
         try
         {
-            declare(p, d);
+            declare(*cur, d);
         }
         catch (no::parser_error&)
         {
             return "decl-dev";
         }
         std::string out;
+        int moves = 0;
         for (std::size_t i = 2; i + 1 < f.size(); i += 2)
         {
+            if (op == "HM" && i > 2)
+            {
+                if (moves++ % 2 == 0)
+                    cur = std::make_unique<no::parser>(std::move(*cur));
+                else
+                {
+                    auto nxt = std::make_unique<no::parser>("other");
+                    nxt->toggle("dropped", "d");
+                    *nxt = std::move(*cur);
+                    cur = std::move(nxt);
+                }
+            }
             set_env(d, f[i]);
-            out += (i > 2 ? ";" : "") + do_parse(p, d, nv::unhex_list(f[i + 1]));
+            out += (i > 2 ? ";" : "") + do_parse(*cur, d, nv::unhex_list(f[i + 1]));
         }
         set_env(d, ".");
         return out;
